@@ -84,13 +84,18 @@ CHECKS["C01"] = dict(
          "counterexample, finding D21). Environment hypotheses: blocks well formed and pairwise disjoint, pool object outside its blocks.",
     technique="Lean 4 proof (partition invariant over cells, order-independent; ordered-list structural invariant; induction over histories) + correspondence/oracles")
 CHECKS["C04"] = dict(
-    text="Lean theorems: capacity counter = number of free nodes for every operation of the unordered list and chunk capacities of the small "
-         "list; allocate+release restores the unordered list exactly (arrays: as a permutation, with exactly ceil(n/ns) cells both ways); "
-         "ordered list: find_pos is correct for every sorted list, cursor and address (valid releases find their adjacent pair; release restores "
-         "the node sequence exactly); pools/collections never call the block source while the matching list holds a node; m node allocations "
-         "with >= m free nodes never grow (so cycles repeat without growth). Tied by state-dump correspondence of all three lists in rel and dbg.",
-    note="multi-array cycles on the unordered list may grow (D15, documented limitation; recorded finding).",
-    technique="Lean 4 proof (list invariants, find_pos correctness) + correspondence")
+    text="Lean theorems: (1) memory_pool over the unordered AND the ordered free list, for ALL histories of node/array allocations, try_ "
+         "variants and releases in any order, any configuration and environment: exact accounting - capacity counter + cells of live "
+         "allocations = number of cells of the blocks in use, at every point; hence after everything has been released the capacity is at "
+         "least the initial capacity plus everything that was live, and a cycle that did not grow the pool restores the counter exactly "
+         "(Props/C04Pool). (2) per-list facts: capacity counter = number of free nodes for every operation of the unordered list and chunk "
+         "capacities of the small list; allocate+release restores the unordered list exactly (arrays: as a permutation, exactly ceil(n/ns) "
+         "cells both ways); ordered list: find_pos is correct for every sorted list, cursor and address; pools/collections never call the "
+         "block source while the matching list holds a node; m node allocations with >= m free nodes never grow. Tied by state-dump "
+         "correspondence of all three lists in rel and dbg.",
+    note="multi-array cycles on the unordered list may grow although no cell is lost (fragmented list order; D15, documented limitation; "
+         "recorded finding). Small-node pools and collections: per-list capacity theorems + correspondence, no history theorem yet.",
+    technique="Lean 4 proof (exact-accounting invariant by induction over histories, list invariants, find_pos correctness) + correspondence")
 CHECKS["C18"] = dict(
     text="Lean theorems over the translator-generated min_block_size formulas and the list insert models: for every node size and count "
          "(explicit no-overflow hypotheses) a block of min_block_size bytes yields exactly n nodes (intrusive lists) / at least n and fewer "
